@@ -1,3 +1,72 @@
-Require Import Base Opcode Tables Ops Tree Lexer Parser Print.
-Example placeholder_C15 : True. Proof. exact I. Qed.
-Print Assumptions placeholder_C15.
+(* C15 — Infix notation means the same as the equivalent prefix expression.
+   Only statements; proofs in Proofs/InfixProofs.v, PrefixProofs.v, SourceProofs.v, LexProofs.v, PrintProofs.v.
+
+   An infix expression is an `iexp`: leaves (literals, variables, constants, [..] lists), parentheses (needed or
+   redundant), `! e`, `l op r` and calls `f(a, b, ...)` / `if(c, a, b)`. `iwf` says that it is written with the
+   conventional precedence: the left operand of a binary operator binds at least as tightly as the operator, the
+   right operand and the operand of `!` strictly tighter (left associativity), everything else is parenthesised;
+   operator names are operators of the configuration. `itree` is the tree of the equivalent prefix expression.
+   `parse_infix` / `parse_source` are the models of parseInfixExpression / the whole front end, compared with Go's
+   VerifParse on every correspondence case. *)
+Require Import Base Opcode Tables Ops Tree Directives Lexer Parser Print LexProofs InfixProofs PrefixProofs PrintProofs SourceProofs.
+Open Scope Z_scope.
+
+(* the shunting-yard parser builds the tree of the prefix form — for every well-written infix expression *)
+Theorem C15_parse_infix : forall c e, iwf c e -> parse_infix c (itoks e) = Some (itree c e).
+Proof. exact parse_infix_correct. Qed.
+
+(* ... which is what the prefix parser builds from the prefix text of that tree (Dump's number printer) *)
+Theorem C15_infix_is_prefix : forall c e, iwf c e -> atoms_leaf e -> twf c (itree c e) ->
+  parse_infix c (itoks e) = parse_prefix c false (ttoks show_Z (itree c e)).
+Proof. intros c e. exact (infix_is_prefix c show_Z parse_show_Z e). Qed.
+
+(* redundant parentheses do not change the tree *)
+Theorem C15_parens_irrelevant : forall c e1 e2, iwf c e1 -> iwf c e2 -> strip_parens e1 = strip_parens e2 ->
+  parse_infix c (itoks e1) = parse_infix c (itoks e2).
+Proof. exact parens_irrelevant. Qed.
+
+(* from text: ANY spacing of the tokens (white-space runs between tokens, empty where two tokens cannot fuse)
+   gives that tree through lexer, token check and parser *)
+Theorem C15_source : forall c items e,
+  wf_items is_letter_tab is_number_tab true items -> map fst items = itoks e -> iwf c e -> ichk e ->
+  parse_source c true (render items) = Some (itree c e).
+Proof. exact infix_source. Qed.
+
+(* the leaves: integer and string literals, variables, constants, bracket lists *)
+Theorem C15_atom_int : forall c s z, parse_int s = Some z -> iwf c (IAtom [KInt s] (TConst (VInt z))) /\ acheck [KInt s].
+Proof. exact atom_int. Qed.
+Theorem C15_atom_str : forall c s, iwf c (IAtom [KStr s] (TConst (VStr s))) /\ acheck [KStr s].
+Proof. exact atom_str. Qed.
+Theorem C15_atom_var : forall c n k, builtin_const n = None -> assoc n (p_consts c) = None -> assoc n (p_vars c) = Some k ->
+  iwf c (IAtom [KIdent n] (TVar n k)) /\ acheck [KIdent n].
+Proof. exact atom_var. Qed.
+Theorem C15_atom_int_list : forall c (l : list str) zs, l <> [] -> all_parse_int l = Some zs ->
+  iwf c (IAtom (KLBracket :: map KInt l ++ [KRBracket]) (TConst (VIntL zs))) /\ acheck (KLBracket :: map KInt l ++ [KRBracket]).
+Proof. exact atom_int_list. Qed.
+Theorem C15_atom_str_list : forall c (l : list str),
+  iwf c (IAtom (KLBracket :: map KStr l ++ [KRBracket]) (TConst (VStrL l))) /\ acheck (KLBracket :: map KStr l ++ [KRBracket]).
+Proof. exact atom_str_list. Qed.
+
+(* non-vacuity: a well-written expression with every construct, and the front end on two spacings of it *)
+Definition c0 : pconf := {| p_consts := []; p_vars := [(ss "a", 1); (ss "b", 2)]; p_ops := [ss "f"]; p_undefined := false |}.
+Definition va := IAtom [KIdent (ss "a")] (TVar (ss "a") 1).
+Definition vb := IAtom [KIdent (ss "b")] (TVar (ss "b") 2).
+Definition lit (z : Z) := IAtom [KInt (show_Z z)] (TConst (VInt z)).
+Definition ex : iexp :=
+  IBin (ss "||")
+    (IBin (ss "&&") (IBin (ss "<") va (IBin (ss "+") vb (IBin (ss "*") (lit 2) (IParen (IBin (ss "-") va (lit 1))))))
+                    (INot (IParen (IBin (ss "==") (ICall (ss "f") [vb; IBin (ss "+") va (lit 2)]) (lit 3)))))
+    (ICall (ss "if") [IBin (ss "<") va (lit 2); IAtom [KLBracket; KInt (ss "1"); KInt (ss "2"); KRBracket] (TConst (VIntL [1; 2])); IParen (IParen vb)]).
+Example C15_ex_wf : iwf c0 ex.
+Proof.
+  cbn [iwf ex va vb lit]. repeat split; try discriminate; try (intros rest; reflexivity); try reflexivity; try (cbv; congruence).
+Qed.
+Example C15_ex_text :
+  parse_source c0 true (ss "a < b + 2 * (a - 1) && !(f(b, a + 2) == 3) || if(a < 2, [1 2], ((b)))") = Some (itree c0 ex) /\
+  parse_source c0 true (ss "a   < b + 2 *(a - 1)&& !(f(b,a + 2)== 3)|| if(a < 2,[1 2],(	(b)))") = Some (itree c0 ex) /\
+  parse_source c0 false (ss "(|| (&& (< a (+ b (* 2 (- a 1)))) (! (== (f b (+ a 2)) 3))) (if (< a 2) (1 2) b))") = Some (itree c0 ex).
+Proof. vm_compute. repeat split. Qed.
+
+Print Assumptions C15_parse_infix.
+Print Assumptions C15_infix_is_prefix.
+Print Assumptions C15_source.
